@@ -98,6 +98,40 @@ StrTexts == SetToSeq(TextsUpTo(A1, StrLen) \cup StrExtra)
 NonStrCands == <<IntV(5), BoolV(TRUE), Other("none"), Other("list"), BytesV(<<"a">>), FloatV(1, 2)>>
 NST == Len(StrTexts)
 
+\* ------------------------------------------------------------------ part "strx" (round 4): counted repetition, IGNORECASE
+\* groups, MULTILINE anchors, over an alphabet with both cases
+A2 == {"a", "A", "b", NL}
+RegexesX == <<
+  Cat(<<Bol, Times(Chr({"a"}), 2, 3), Eol>>),                                                      \* 1  ^a{2,3}$
+  Cat(<<Times(Alt(<<Word(<<"a", "b">>), Word(<<"a">>)>>), 1, 2), Eos>>),                           \* 2  (?:ab|a){1,2}\Z     backtracking into the count
+  Times(Chr({"a", "b"}), 2, 0 - 1),                                                                \* 3  [ab]{2,}
+  Cat(<<Bol, Times(Star(Chr({"a"})), 2, 2), Chr({"b"}), Eol>>),                                    \* 4  ^(?:a*){2}b$        empty iterations
+  Cat(<<Times(Chr({"a"}), 0, 1), Chr({"b"})>>),                                                    \* 5  a{0,1}b
+  Cat(<<Times(Chr({"a"}), 0, 0), Eos>>),                                                           \* 6  a{0}\Z             only the empty text
+  NoCase(Cat(<<Bol, Plus(Chr({"a"})), Chr({"b"}), Eol>>)),                                       \* 7  (?i:^a+b$)
+  Cat(<<NoCase(Chr({"a"})), Chr({"a"})>>),                                                       \* 8  (?i:a)a             the flag is scoped
+  NoCase(Cat(<<NotChr({"a"}), Eos>>)),                                                           \* 9  (?i:[^a]\Z)         negated class under IGNORECASE
+  Cat(<<Star(NotChr({})), MBol, Chr({"b"})>>),                                                   \* 10 [\s\S]*(?m:^)b      b at the start of some line
+  Cat(<<Chr({"a"}), MEol>>),                                                                     \* 11 a(?m:$)
+  Cat(<<Bol, Times(Cat(<<NoCase(Chr({"a"})), Opt(Chr({NL}))>>), 1, 3), MEol>>),                    \* 12 ^(?:(?i:a)\n?){1,3}(?m:$)
+  Cat(<<Times(Times(Chr({"a"}), 1, 2), 2, 2), Eos>>),                                                \* 13 (?:a{1,2}){2}\Z     nested counts
+  NoCase(Times(Chr({"A"}), 3, 0 - 1))                                                              \* 14 (?i:A{3,})
+>>
+NReX == Len(RegexesX)
+StrXTexts == SetToSeq(TextsUpTo(A2, IF StrLen >= 5 THEN StrLen + 1 ELSE StrLen)
+                      \cup {<<"a","a","a","a">>, <<"a","A","a","A">>, <<"a","b","a","b">>, <<"a",NL,"a","a">>, <<"A","A","A","b">>, <<"a","a","a","b">>, <<"a",NL,"A",NL>>})
+NSTX == Len(StrXTexts)
+\* the unrolling of a counted repetition: lo copies, then hi - lo nested optional copies (or a star)
+RECURSIVE OptChain(_, _), Unroll(_)
+OptChain(r, n) == IF n = 0 THEN Cat(<< >>) ELSE Opt(Cat(<<r, OptChain(r, n - 1)>>))
+Unroll(re) == CASE re.k \in {"cat", "alt"} -> [k |-> re.k, a |-> [q \in 1..Len(re.a) |-> Unroll(re.a[q])]]
+                [] re.k \in {"star", "plus", "opt", "ci"} -> [k |-> re.k, r |-> Unroll(re.r)]
+                [] re.k = "rep" -> LET u == Unroll(re.r) IN
+                                   Cat([q \in 1..re.lo |-> u] \o <<IF re.hi < 0 THEN Star(u) ELSE OptChain(u, re.hi - re.lo)>>)
+                [] OTHER -> re
+RECURSIVE Variants(_)
+Variants(t) == IF t = << >> THEN {<< >>} ELSE {<<c>> \o u : c \in {t[1], SwapCase(t[1])}, u \in Variants(Tail(t))}
+
 \* ------------------------------------------------------------------ part "reg"
 HazA == {".", "_", "1", "e", "-", "+", ":"}
 HazTexts == TextsUpTo(HazA, HazLen) \ {<< >>}
@@ -139,12 +173,54 @@ RegCases == SetToSeq(PathCases) \o SetToSeq(RangeCases) \o SetToSeq(TdCases) \o 
 NReg == Len(RegCases)
 Channels == <<"yaml", "json", "cli">>
 
+\* ------------------------------------------------------------------ parts "regm" / "pmode" (round 4): parser modes json, jsonnet, toml
+ModeSeq == <<"json", "jsonnet", "toml">>
+NModes == Len(ModeSeq)
+RestCases == SetToSeq(RangeCases) \o SetToSeq(TdCases) \o SetToSeq(BytesCases) \o SetToSeq(UuidCases) \o SetToSeq(ComplexCases)
+RestSel == IF HazLen >= 4 THEN [q \in 1..(Len(RestCases) \div 40) |-> RestCases[q * 40]]                     \* thorough: every 40th (20 000 base64 values)
+           ELSE [q \in 1..(Len(RestCases) \div 23) |-> RestCases[q * 23]]                                  \* quick: every 23rd
+Every(sq, n) == [q \in 1..(Len(sq) \div n) |-> sq[q * n]]
+\* quick: the hand-picked path texts that crash some loader or read as null, and every 4th of the others
+PathExtraSeq == SetToSeq(PathExtra)
+PathsQ == {RV("Path", t) : t \in {h \in PathExtra : LoaderCrash(h) \/ LoadsAsNull(h)} \cup {PathExtraSeq[q * 4] : q \in 1..(Len(PathExtraSeq) \div 4)}}
+PathsM == IF HazLen >= 4 THEN PathCases ELSE PathsQ
+RegMBase == SetToSeq(PathsM) \o (IF HazLen >= 4 THEN SetToSeq(DecCases) ELSE Every(SetToSeq(DecCases), 8)) \o SetToSeq(DecXCases) \o RestSel
+NRegM == NModes * Len(RegMBase)
+RegMCase(k) == [mode |-> ModeSeq[((k - 1) % NModes) + 1], v |-> RegMBase[((k - 1) \div NModes) + 1]]
+\* what load_value makes of a text in the given mode (assumption, verified by the harness on the real loaders)
+LdOfM(mode, t) == IF ModeLoaderCrash(mode, t) THEN "crash" ELSE IF t = <<"n", "u", "l", "l">> THEN "none" ELSE IF t = <<"[", "1", "]">> THEN "list" ELSE IF t = <<"{", "}">> THEN "dict" ELSE "text"
+PMTexts == SetToSeq(StrExtra \cup TextsUpTo(A1, 2))
+NPMT == Len(PMTexts)
+NPMode == NModes * (NNamed + NRe)
+PMCase(k) == LET q == ((k - 1) \div NModes) + 1 IN
+             [mode |-> ModeSeq[((k - 1) % NModes) + 1], kind |-> IF q <= NNamed THEN "named" ELSE "str", n |-> IF q <= NNamed THEN q ELSE q - NNamed]
+\* ------------------------------------------------------------------ part "regc" (round 4): registered values inside containers / dataclass
+\* fields / defaults; os.PathLike (registered with serializer str and deserializer str: the parsed value is the str) bare
+CtxSeq == <<"list", "dict", "optional", "union", "dataclass", "default">>
+NCtx == Len(CtxSeq)
+RegCBase == SetToSeq(PathsM)
+            \o (IF HazLen >= 4 THEN SetToSeq(DecCases) ELSE Every(SetToSeq(DecCases), 8)) \o SetToSeq(DecXCases)
+            \o RestSel
+\* os.PathLike: texts with what load_value makes of them (assumption, verified by the harness on the real loader)
+PathLikeTable == << <<<<"a">>, "text">>, <<<<"a","/","b">>, "text">>, <<<<"1","e","3">>, "text">>, <<<<"t","r","u","e">>, "text">>, <<<<"{","a">>, "text">>,
+                    <<<<"n","u","l","l">>, "none">>, <<<<"~">>, "none">>, <<<<"#","a">>, "none">>, <<<<"-"," ","a">>, "list">>, <<<<"a",":"," ","b">>, "dict">>,
+                    <<<<"?"," ","a">>, "dict">>, <<<<"1",":">>, "crash">>, <<<<".","_">>, "crash">>, <<<<"{","1","}">>, "crash">>, <<<<"a",":">>, "text">> >>
+PathLikeCases == [q \in 1..Len(PathLikeTable) |-> [ty |-> "PathLike", f |-> PathLikeTable[q][1], ld |-> PathLikeTable[q][2]]]
+NRegC == NCtx * Len(RegCBase) + Len(PathLikeCases)
+RegCCase(k) == IF k <= NCtx * Len(RegCBase) THEN [ctx |-> CtxSeq[((k - 1) % NCtx) + 1], v |-> RegCBase[((k - 1) \div NCtx) + 1]]
+               ELSE [ctx |-> "bare", v |-> PathLikeCases[k - NCtx * Len(RegCBase)]]
 
 \* ------------------------------------------------------------------ part "secret"
 Secrets == << <<"h","u","n","t","e","r","2">>, <<"a">>, <<"n","u","l","l">>, <<"1","e","3">>, <<"*">>, Mask, <<"p"," ","w",":"," ","x">> >>
 SecretCtxs == SetToSeq(SecretContexts)
-NSecret == Len(Secrets) * Len(SecretCtxs)
-SecretCase(i) == [ctx |-> SecretCtxs[((i - 1) \div Len(Secrets)) + 1], secret |-> Secrets[((i - 1) % Len(Secrets)) + 1]]
+\* (round 4) two flavours of the secret type: jsonargparse.typing.SecretStr and pydantic.SecretStr (registered on first
+\* use with the default serializer str, typing.py:493; its __str__ is the same ten asterisks)
+SecretFlavours == <<"jsonargparse", "pydantic">>
+NSecret1 == Len(Secrets) * Len(SecretCtxs)
+NSecret == 2 * NSecret1
+SecretCase(i) == LET i1 == ((i - 1) % NSecret1) + 1 IN
+                 [ctx |-> SecretCtxs[((i1 - 1) \div Len(Secrets)) + 1], secret |-> Secrets[((i1 - 1) % Len(Secrets)) + 1],
+                  flavour |-> SecretFlavours[((i - 1) \div NSecret1) + 1]]
 
 \* ------------------------------------------------------------------ the state: one case and what the spec says about it
 \* root -> Groups group states -> the cases (so that TLC's workers evaluate the cases in parallel).  fx holds, for the
@@ -159,11 +235,11 @@ NumFacts(T) ==
    ref  |-> [j \in 1..NC |-> RefOutcome(T, C[j])],
    alg  |-> [j \in 1..NC |-> AlgNew(T, C[j])],
    pars |-> [j \in 1..NC |-> AlgParse(LAMBDA y : AlgNew(T, y), C[j], LdOf(C[j].t))]]
-StrFacts(re) ==
-  [acc  |-> [j \in 1..NST |-> PrefixMatch(re, StrTexts[j])],
-   ld   |-> [j \in 1..NST |-> LdOf(StrTexts[j])],
-   pbr  |-> [j \in 1..NST |-> AlgParseBranch(LAMBDA y : AlgStrNew(re, y), StrV(StrTexts[j]), LdOf(StrTexts[j]))],
-   full |-> [j \in 1..NST |-> FullMatch(re, StrTexts[j])],
+StrFactsOn(re, TT) ==
+  [acc  |-> [j \in 1..Len(TT) |-> PrefixMatch(re, TT[j])],
+   ld   |-> [j \in 1..Len(TT) |-> LdOf(TT[j])],
+   pbr  |-> [j \in 1..Len(TT) |-> AlgParseBranch(LAMBDA y : AlgStrNew(re, y), StrV(TT[j]), LdOf(TT[j]))],
+   full |-> [j \in 1..Len(TT) |-> FullMatch(re, TT[j])],
    accx |-> [j \in 1..Len(NonStrCands) |-> RefStrAccepts(re, NonStrCands[j])],
    algx |-> [j \in 1..Len(NonStrCands) |-> AlgStrNew(re, NonStrCands[j])]]
 RegF(v) ==
@@ -176,15 +252,53 @@ RegF(v) ==
   ELSE LET F == RegFacts(v, "le15") IN
        [rep |-> F.rep, mis |-> F.mis, crash |-> F.crash, alg |-> F.alg, dev |-> F.dev,
         inv |-> DeserBack(v, F.rep), tags |-> IF v.ty = "Path" THEN <<DumperTag(v.f), LoaderTag(v.f)>> ELSE <<"-", "-">>]
+RegMF(c) ==
+  IF c.v.ty = "DecimalX"
+  THEN LET f == IF c.v.f[1] = "exact" THEN "eq" ELSE "via-float"
+           cc == CASE c.v.f[2] = "le15" -> "eq" [] c.v.f[2] = "gt17" -> "via-float" [] OTHER -> "eq|via-float" IN
+       [rep |-> [k |-> "opaque", t |-> << >>, n |-> NoNum], mis |-> FALSE, crash |-> FALSE, alg |-> <<f, cc>>,
+        dev |-> <<IF c.v.f[1] = "exact" THEN "none" ELSE "float-serializer", IF c.v.f[2] = "le15" THEN "none" ELSE "float-serializer">>, ycrash |-> FALSE]
+  ELSE LET F == RegFactsM(c.v, "le15", c.mode) IN
+       [rep |-> F.rep, mis |-> F.mis, crash |-> F.crash, alg |-> F.alg, dev |-> F.dev, ycrash |-> c.mode = "jsonnet" /\ F.rep.k = "str" /\ LoaderCrash(F.rep.t)]
+RegCF(c) ==
+  IF c.v.ty = "DecimalX"
+  THEN LET f == IF c.v.f[1] = "exact" THEN "eq" ELSE "via-float"
+           cc == CASE c.v.f[2] = "le15" -> "eq" [] c.v.f[2] = "gt17" -> "via-float" [] OTHER -> "eq|via-float"
+           c3 == IF c.ctx \in {"list", "dict"} THEN f ELSE cc
+           d1 == IF c.v.f[1] = "exact" THEN "none" ELSE "float-serializer" IN
+       [rep |-> [k |-> "opaque", t |-> << >>, n |-> NoNum], mis |-> FALSE, crash |-> FALSE, alg |-> <<f, f, c3>>,
+        dev |-> <<d1, d1, IF c.ctx \in {"list", "dict"} THEN d1 ELSE IF c.v.f[2] = "le15" THEN "none" ELSE "float-serializer">>,
+        bare |-> "none", ref |-> <<"eq", "eq", "eq">>]
+  ELSE IF c.v.ty = "PathLike"
+  THEN LET F == PathLikeFacts(c.v.f, c.v.ld) IN
+       [rep |-> F.rep, mis |-> F.mis, crash |-> F.crash, alg |-> F.alg, dev |-> F.dev, bare |-> F.dev[1], ref |-> <<"eq", "eq", "eq">>]
+  ELSE LET F == RegFactsCtx(c.v, "le15", c.ctx) IN
+       [rep |-> F.rep, mis |-> F.mis, crash |-> F.crash, alg |-> F.alg, dev |-> F.dev, bare |-> RegFacts(c.v, "le15").dev[1],
+        ref |-> [q \in 1..3 |-> RefRoundTripCtx(c.v, c.ctx, Channels[q])]]
+PModeF(c) ==
+  IF c.kind = "named"
+  THEN LET C == NumCands  T == NamedSpecs[c.n].t IN
+       [ld   |-> [j \in 1..NC |-> LdOfM(c.mode, C[j].t)],
+        ref  |-> [j \in 1..NC |-> RefOutcome(T, C[j])],
+        pars |-> [j \in 1..NC |-> AlgParse(LAMBDA y : AlgNew(T, y), C[j], LdOfM(c.mode, C[j].t))]]
+  ELSE LET re == Regexes[c.n] IN
+       [ld   |-> [j \in 1..NPMT |-> LdOfM(c.mode, PMTexts[j])],
+        acc  |-> [j \in 1..NPMT |-> PrefixMatch(re, PMTexts[j])],
+        pars |-> [j \in 1..NPMT |-> AlgParse(LAMBDA y : AlgStrNew(re, y), StrV(PMTexts[j]), LdOfM(c.mode, PMTexts[j]))],
+        pbr  |-> [j \in 1..NPMT |-> AlgParseBranch(LAMBDA y : AlgStrNew(re, y), StrV(PMTexts[j]), LdOfM(c.mode, PMTexts[j]))]]
 Facts(p, k) ==
   CASE p = "num"    -> NumFacts(NumTypes[k])
     [] p = "named"  -> NumFacts(NamedSpecs[k].t)
     [] p = "create" -> [creates |-> AlgCreates(CreateSpecs[k]), wf |-> RefWellFormed(CreateSpecs[k])]
-    [] p = "str"    -> StrFacts(Regexes[k])
+    [] p = "str"    -> StrFactsOn(Regexes[k], StrTexts)
+    [] p = "strx"   -> StrFactsOn(RegexesX[k], StrXTexts)
     [] p = "reg"    -> RegF(RegCases[k])
+    [] p = "regm"   -> RegMF(RegMCase(k))
+    [] p = "pmode"  -> PModeF(PMCase(k))
+    [] p = "regc"   -> RegCF(RegCCase(k))
     [] p = "secret" -> [leaf |-> AlgDumpedLeaf(SecretCase(k).ctx, SecretCase(k).secret)]
-Count(p) == CASE p = "num" -> NNum [] p = "named" -> NNamed [] p = "create" -> NCreate [] p = "str" -> NRe [] p = "reg" -> NReg [] p = "secret" -> NSecret
-Parts == {"num", "named", "create", "str", "reg", "secret"}
+Count(p) == CASE p = "num" -> NNum [] p = "named" -> NNamed [] p = "create" -> NCreate [] p = "str" -> NRe [] p = "strx" -> NReX [] p = "reg" -> NReg [] p = "regm" -> NRegM [] p = "pmode" -> NPMode [] p = "regc" -> NRegC [] p = "secret" -> NSecret
+Parts == {"num", "named", "create", "str", "strx", "reg", "regm", "pmode", "regc", "secret"}
 
 Init == part = "root" /\ idx = 0 /\ fx = << >>
 Next == \/ part = "root" /\ \E g \in 1..Groups : part' = "group" /\ idx' = g /\ fx' = << >>
@@ -238,6 +352,27 @@ StrPrefixLaw == part = "str" => \A j \in 1..NST : LET t == StrTexts[j] IN
         /\ (fx.full[j] => fx.acc[j])
         /\ (fx.acc[j] = (Ends(Re, t, 1) # {}))
 
+\* ------------------------------------------------------------------ invariants, part "strx" (round 4)
+ReX == RegexesX[idx]
+StrxAlgRefinesRef == part = "strx" =>
+     /\ \A j \in 1..NSTX : LET x == StrV(StrXTexts[j]) IN
+          /\ SameVal(AlgStrNew(ReX, x).v, IF fx.acc[j] THEN x ELSE Rejected)
+          /\ SameVal(AlgParse(LAMBDA y : AlgStrNew(ReX, y), x, fx.ld[j]).v, IF fx.acc[j] THEN x ELSE Rejected)
+          /\ (fx.full[j] => fx.acc[j])
+     /\ \A j \in 1..Len(NonStrCands) : ~fx.accx[j] /\ fx.algx[j].r = "raise"
+\* a counted repetition means its unrolling (lo copies, then optional copies / a star): same set of end positions
+StrxRepLaw == part = "strx" => LET u == Unroll(ReX) IN \A j \in 1..NSTX : Ends(u, StrXTexts[j], 1) = Ends(ReX, StrXTexts[j], 1)
+\* under IGNORECASE a text matches iff one of its case variants matches the plain term
+\* (the law needs every NEGATED class of the term to be closed under case: [^a] accepts A, (?i:[^a]) does not)
+RECURSIVE NegClosed(_)
+NegClosed(re) == CASE re.k = "chr" -> (~re.neg \/ CaseClose(re.s) = re.s)
+                   [] re.k \in {"cat", "alt"} -> \A q \in 1..Len(re.a) : NegClosed(re.a[q])
+                   [] re.k \in {"star", "plus", "opt", "rep"} -> NegClosed(re.r)
+                   [] re.k = "ci" -> TRUE
+                   [] OTHER -> TRUE
+StrxCaseLaw == (part = "strx" /\ NegClosed(ReX)) => \A j \in 1..NSTX : Len(StrXTexts[j]) > 3 \/
+        (PrefixMatch(NoCase(ReX), StrXTexts[j]) = (\E u \in Variants(StrXTexts[j]) : PrefixMatch(ReX, u)))
+
 \* ------------------------------------------------------------------ invariants, part "reg"
 RV0 == RegCases[idx]
 \* outside the named deviations the transcription meets the obligation on every channel, inside them it does not
@@ -254,6 +389,40 @@ RegResolverLaw == (part = "reg" /\ RV0.ty = "Path") =>
      ((fx.tags[1] # fx.tags[2]) => ((fx.tags[1] = "timestamp" /\ fx.tags[2] = "str") \/ (fx.tags[1] = "str" /\ fx.tags[2] = "float")))
 \* the Decimal serializer is not injective into float exactly on the decimals that are not doubles
 RegDecimalFinding == (part = "reg" /\ RV0.ty = "Decimal") => (DecExact(RV0.f) = (fx.alg[1] = "eq"))
+
+\* ------------------------------------------------------------------ invariants, parts "regm" / "pmode" (round 4)
+RM == RegMCase(idx)
+\* in every mode the named deviations are exactly the cases where the Alg round trip is not "eq"
+RegMAlgRefinesRef == part = "regm" => \A c \in 1..2 : (fx.dev[c] = "none") = (fx.alg[c] = "eq")
+\* JSON and TOML modes: nothing crashes, nothing is misread; every value that is not a Decimal comes back equal
+RegMJsonTomlClean == (part = "regm" /\ RM.mode \in {"json", "toml"}) =>
+     (~fx.crash /\ ~fx.mis /\ (RM.v.ty \notin {"Decimal", "DecimalX"} => fx.alg = <<"eq", "eq">>))
+\* jsonnet mode: its crashes are YAML-mode crashes (the fallback loader is yaml_load), of paths only, never a misread
+RegMJsonnetLaw == (part = "regm" /\ RM.mode = "jsonnet") => (~fx.mis /\ (fx.crash => (fx.ycrash /\ RM.v.ty = "Path")))
+PMC == PMCase(idx)
+\* through a parser of any mode Alg = Ref outside the loader crashes of that mode
+PModeRefinesRef == part = "pmode" =>
+     IF PMC.kind = "named"
+     THEN \A j \in 1..NC : IF fx.ld[j] = "crash" THEN fx.pars[j].r = "raise" ELSE SameVal(fx.pars[j].v, fx.ref[j])
+     ELSE \A j \in 1..NPMT : IF fx.ld[j] = "crash" THEN fx.pars[j].r = "raise"
+                               ELSE SameVal(fx.pars[j].v, IF fx.acc[j] THEN StrV(PMTexts[j]) ELSE Rejected)
+PModeJsonTomlNoCrash == (part = "pmode" /\ PMC.mode \in {"json", "toml"}) => \A j \in DOMAIN fx.ld : fx.ld[j] # "crash"
+
+\* ------------------------------------------------------------------ invariants, part "regc" (round 4)
+RC == RegCCase(idx)
+RegCAlgRefinesRef == part = "regc" => \A c \in 1..3 : /\ (fx.dev[c] = "none") = (fx.alg[c] = "eq")
+                                                        /\ (fx.dev[c] \in {"none", "null-text"} => \E o \in {"eq", "other"} : AlgAllows(fx.alg[c], o) /\ RefAllows(fx.ref[c], o))
+                                                        /\ (fx.ref[c] # "eq" => RC.ctx = "optional")
+\* os.PathLike: the crash model agrees with the table, and a text that is not loaded as a scalar does not survive
+RegCPathLike == (part = "regc" /\ RC.v.ty = "PathLike") =>
+     /\ (RC.v.ld = "crash") = LoaderCrash(RC.v.f)
+     /\ (RC.v.ld \in {"none", "list", "dict"} => fx.alg[1] # "eq")
+     /\ (LoadsAsNull(RC.v.f) => RC.v.ld = "none")
+\* inside List / Dict nothing crashes: a path that cannot be parsed back bare comes back equal as an item
+RegCItemsNeverCrash == (part = "regc" /\ RC.ctx \in {"list", "dict"}) =>
+     (~fx.crash /\ (fx.bare = "loader-crash" => fx.alg = <<"eq", "eq", "eq">>))
+\* everywhere else the context changes nothing: the deviations are those of the bare value
+RegCContextNeutral == (part = "regc" /\ RC.ctx \notin {"list", "dict"} /\ RC.v.ty # "DecimalX") => (fx.dev[1] = fx.bare \/ fx.dev[1] = "null-text")
 
 \* ------------------------------------------------------------------ invariants, part "secret"
 SC == SecretCase(idx)
@@ -274,18 +443,30 @@ Line ==
           br |-> [j \in 1..NC |-> AlgBranch(NumT, fx.c[j])],
           pbr |-> [j \in 1..NC |-> AlgParseBranch(LAMBDA y : AlgNew(NumT, y), fx.c[j], LdOf(fx.c[j].t))]]
     [] part = "create" -> [part |-> part, i |-> idx, type |-> TypeJ(CreateSpecs[idx]), creates |-> fx.wf]
-    [] part = "str" -> [part |-> part, i |-> idx, acc |-> fx.acc, accx |-> fx.accx, full |-> fx.full, ld |-> fx.ld, pbr |-> fx.pbr]
+    [] part \in {"str", "strx"} -> [part |-> part, i |-> idx, acc |-> fx.acc, accx |-> fx.accx, full |-> fx.full, ld |-> fx.ld, pbr |-> fx.pbr]
     [] part = "reg" ->
          [part |-> part, i |-> idx, ty |-> RV0.ty, f |-> RV0.f,
           rep |-> [k |-> fx.rep.k, t |-> fx.rep.t, n |-> NumJ(fx.rep.n)],
           alg |-> fx.alg, dev |-> fx.dev, tags |-> fx.tags]
-    [] part = "secret" -> [part |-> part, i |-> idx, ctx |-> SC.ctx, secret |-> SC.secret, leaf |-> fx.leaf]
+    [] part = "regm" ->
+         [part |-> part, i |-> idx, mode |-> RM.mode, ty |-> RM.v.ty, f |-> RM.v.f,
+          rep |-> [k |-> fx.rep.k, t |-> fx.rep.t, n |-> NumJ(fx.rep.n)], alg |-> fx.alg, dev |-> fx.dev]
+    [] part = "regc" ->
+         [part |-> part, i |-> idx, ctx |-> RC.ctx, ty |-> RC.v.ty, f |-> RC.v.f, ld |-> IF RC.v.ty = "PathLike" THEN RC.v.ld ELSE "-",
+          rep |-> [k |-> fx.rep.k, t |-> fx.rep.t, n |-> NumJ(fx.rep.n)], alg |-> fx.alg, dev |-> fx.dev, ref |-> fx.ref]
+    [] part = "pmode" ->
+         IF PMC.kind = "named"
+         THEN [part |-> part, i |-> idx, mode |-> PMC.mode, kind |-> PMC.kind, n |-> PMC.n, ld |-> fx.ld,
+               ref |-> [j \in 1..NC |-> ValJ(fx.ref[j])], pacc |-> [j \in 1..NC |-> fx.pars[j].r = "ok"]]
+         ELSE [part |-> part, i |-> idx, mode |-> PMC.mode, kind |-> PMC.kind, n |-> PMC.n, ld |-> fx.ld, acc |-> fx.acc,
+               pacc |-> [j \in 1..NPMT |-> fx.pars[j].r = "ok"], pbr |-> fx.pbr]
+    [] part = "secret" -> [part |-> part, i |-> idx, ctx |-> SC.ctx, secret |-> SC.secret, leaf |-> fx.leaf, flavour |-> SC.flavour]
 EmitCase == (Emit /\ part \notin {"root", "group"}) => PrintT(ToJson(Line))
 \* the two formulations of the int() / float() grammars agree on every candidate text
 ASSUME GrammarFormsAgree == LET C == NumCands IN \A j \in 1..NC : (FullMatch(PyIntRe, C[j].t) = IsPyInt(C[j].t)) /\ (FullMatch(PyFloatRe, C[j].t) = IsPyFloat(C[j].t))
 ASSUME Emit => LET C == NumCands IN
                PrintT(ToJson([cands |-> [j \in 1..NC |-> ValJ(C[j])], ld |-> [j \in 1..NC |-> LdOf(C[j].t)],
-                              regexes |-> Regexes, strtexts |-> StrTexts, nonstr |-> [j \in 1..Len(NonStrCands) |-> ValJ(NonStrCands[j])],
+                              regexes |-> Regexes, strtexts |-> StrTexts, regexesx |-> RegexesX, strxtexts |-> StrXTexts, pmtexts |-> PMTexts, modes |-> ModeSeq, nonstr |-> [j \in 1..Len(NonStrCands) |-> ValJ(NonStrCands[j])],
                               channels |-> Channels,
-                              counts |-> [num |-> NNum, named |-> NNamed, create |-> NCreate, str |-> NRe, reg |-> NReg, secret |-> NSecret]]))
+                              counts |-> [num |-> NNum, named |-> NNamed, create |-> NCreate, str |-> NRe, strx |-> NReX, reg |-> NReg, regm |-> NRegM, pmode |-> NPMode, regc |-> NRegC, secret |-> NSecret]]))
 =============================================================================
